@@ -43,6 +43,8 @@ def gen_cases(tier, seed):
         dev = zoo.gen_device(rng, n_terminals=nt, n_holes=int(nt == 0), probes=2 if nt else 0, size="tiny" if scr else "small", smooth=0)
         if scr:
             dev["layer"]["lam"], dev["layer"]["d"] = 2.0, 0.1
+        if k % 2 == 1:
+            dev["layer"]["z0"] = -0.3 * dev["film"].get("w", 4.0)  # film away from the plane z = 0 (a length like any other)
         o = S.base_options(rng, adaptive=bool(k % 2), steps=30 if scr else 100, screening=scr)
         o["dt_max"] = 0.02
         o["dt_init"] = min(o["dt_init"], 5e-3)
@@ -59,7 +61,12 @@ def gen_cases(tier, seed):
         ua, ub = systems[0], systems[1 + k % (len(systems) - 1)]
         if k % 3 == 2:
             ua = systems[int(rng.integers(1, len(systems)))]
-        cases.append({"layer": "L2", "device": dev, "options": o, "drive": drive, "units_a": list(ua), "units_b": list(ub), "cost": 60 if scr else 15})
+        case = {"layer": "L2", "device": dev, "options": o, "drive": drive, "units_a": list(ua), "units_b": list(ub), "cost": 60 if scr else 15}
+        if (k % 4 == 2 and (k // 4) % 2 == 0) or (k % 4 == 1 and (k // 4) % 2 == 1):
+            # both statements of the problem are moved in place (same physical displacement) after meshing, before the run
+            W = dev["film"].get("w", 4.0)
+            case["pre_move"] = [float(rng.uniform(0.2, 0.6) * W), float(-rng.uniform(0.1, 0.4) * W)]
+        cases.append(case)
     nl1 = 6 if tier == "quick" else 40
     for k in range(nl1):
         dev = zoo.gen_device(rng, n_terminals=0, n_holes=int(k % 2), probes=0, size="small", xi=float(rng.choice([0.1, 0.5, 2.0])))
@@ -127,8 +134,16 @@ def _l2(spec):
         else:
             dev = zoo.build_device(d, mesh=False)
             dev.mesh = mesh
+        if spec.get("pre_move"):
+            had_terminals = [len(t.site_indices) for t in dev.terminal_info()]  # raises here if the zoo's terminal misses the boundary
+            dev.translate(spec["pre_move"][0] * LSC[lu], spec["pre_move"][1] * LSC[lu], inplace=True)
         keep = _Keep()
         rr = sim.run_sim({"device": d, "options": o, "drive": dr}, [keep], device=dev, keep_dir=True)
+        if rr.refused and spec.get("pre_move") and "covers no boundary edge" in str(rr.refused):
+            # the terminals found their boundary sites before the rigid move and do not find them afterwards
+            return {"violations": [{"kind": "moved_device_loses_its_terminals", "mechanism": "mesh_and_polygons_moved_differently",
+                                    "detail": {"units": [lu, fu, cu], "terminal_sites_before_move": had_terminals, "move": spec["pre_move"]}}],
+                    "counters": {"unit_pairs": 1}, "classes": ["L2", "pre_move"], "nontrivial": True}
         if rr.refused:
             return {"violations": [], "counters": {"refused_mesh": 1}, "classes": ["refused"], "nontrivial": False}
         if rr.exception is not None:
